@@ -48,7 +48,9 @@ func (c c32Class) certType() cppki.CertType {
 }
 
 // c32Ref names one certificate of the universe: the predecessor's certificate of class/idx (gen 0), its renewal
-// with the same subject (gen 1: new key, gen 2: same key), or a certificate with a fresh subject (idx >= 3).
+// with the same subject (gen 1: new key, gen 2: same key), a "twin" (gen 3: ANOTHER certificate of the same class with
+// the same subject distinguished name, its own key and serial number, same validity as the original; meant to sit in a
+// certificate list NEXT to a certificate of that subject), or a certificate with a fresh subject (idx >= 3).
 type c32Ref struct {
 	class c32Class
 	idx   int
@@ -79,6 +81,10 @@ func c32Cert(r c32Ref) *pkigen.Cert {
 	}
 	if r.gen == 1 {
 		key += "/new"
+	}
+	if r.gen == 3 {
+		v = c32CertVal
+		key += "/twin"
 	}
 	c := pkigen.Must(pkigen.Spec{Type: r.class.certType(), IA: addr.MustIAFrom(r.isd, addr.AS(0xff00_0000_0200+uint64(r.class)*0x10+uint64(r.idx))),
 		CN: fmt.Sprintf("c32 %v%d", r.class, r.idx), NotBefore: v.NotBefore, NotAfter: v.NotAfter, KeyName: key})
@@ -139,9 +145,11 @@ const (
 	c32Swap                       // replaced by a certificate with a fresh subject (count unchanged)
 	c32Add                        // certificate with a fresh subject appended
 	c32Del                        // removed
+	c32Twin                       // a twin of certificate idx (same class, same subject DN, other key) appended
+	c32TwinSwap                   // the NEXT certificate of the class (idx+1 mod n) replaced by a twin of certificate idx (count unchanged)
 )
 
-func (k c32EditKind) String() string { return [...]string{"repl", "replsamekey", "swap", "add", "del"}[k] }
+func (k c32EditKind) String() string { return [...]string{"repl", "replsamekey", "swap", "add", "del", "twin", "twinswap"}[k] }
 
 type c32Edit struct {
 	kind  c32EditKind
@@ -382,6 +390,19 @@ func (s *c32Succ) certs() []c32Ref {
 			}
 		case c32Add:
 			out = append(out, c32Ref{class: e.class, idx: 3, isd: 1})
+		case c32Twin:
+			out = append(out, c32Ref{class: e.class, idx: e.idx, gen: 3, isd: 1})
+		case c32TwinSwap:
+			n := 3
+			if e.class == c32Rt {
+				n = 2
+			}
+			for i := range out {
+				if out[i].class == e.class && out[i].idx == (e.idx+1)%n { // whatever generation sits there
+					out[i] = c32Ref{class: e.class, idx: e.idx, gen: 3, isd: 1}
+					break
+				}
+			}
 		}
 	}
 	return s.order.apply(out)
@@ -417,6 +438,21 @@ func c32Spec(s *c32Succ) (c32Verdict, string) {
 	}
 	if cnt[c32S] < s.newQuorum() || cnt[c32R] < s.newQuorum() {
 		return c32Reject, "payload-invalid:quorum-exceeds-voters"
+	}
+	// trc.rst, certificates field: "Per certificate category, every certificate distinguished name MUST be unique."
+	// The subject of a reference is (class, idx, isd); the generation only changes key / serial / validity.
+	type subj struct {
+		class c32Class
+		idx   int
+		isd   addr.ISD
+	}
+	subjects := map[subj]bool{}
+	for _, c := range s.certs() {
+		k := subj{c.class, c.idx, c.isd}
+		if subjects[k] {
+			return c32Reject, "payload-invalid:duplicate-subject-" + c.class.String()
+		}
+		subjects[k] = true
 	}
 	// votes
 	if len(s.votes) == 0 {
@@ -461,7 +497,9 @@ func c32Spec(s *c32Succ) (c32Verdict, string) {
 	for _, e := range s.edits {
 		if regular {
 			switch {
-			case e.kind == c32Add || e.kind == c32Del || e.kind == c32Swap:
+			case e.kind == c32Add || e.kind == c32Del || e.kind == c32Swap || e.kind == c32Twin || e.kind == c32TwinSwap:
+				// (a twin edit that got here had no effect on the certificate list because its target was removed or
+				// swapped by another edit of the set, which a regular update does not allow either)
 				return c32Reject, fmt.Sprintf("regular:%v-%v", e.kind, e.class)
 			case e.class == c32S:
 				return c32Reject, "regular:sensitive-certificate-changed"
@@ -657,6 +695,20 @@ func (cr *c32Runner) judge(s *c32Succ, inMemory bool) {
 		t.Raw = raw
 		signed = cppki.SignedTRC{Raw: der, TRC: t, SignerInfos: infos}
 	} else if payloadInvalid && !inMemory {
+		if strings.HasPrefix(reason, "payload-invalid:duplicate-subject") {
+			// DecodeSignedTRC does not refuse it; what matters is whether Verify accepts it as (successor) TRC
+			var verr error
+			if pn := mc.Safely(func() { verr = signed.Verify(pred) }); pn != nil {
+				r.Violation("panic:"+reason, map[string]any{"case": s.String(), "panic": fmt.Sprint(pn)})
+				return
+			}
+			if verr == nil {
+				r.Violation("accepted:"+reason, map[string]any{"case": s.String(), "edits": c32EditClass(s), "spec": "must be rejected: " + reason + " (decoded and verified)"})
+			} else {
+				r.Violation("decoded:"+reason, map[string]any{"case": s.String(), "edits": c32EditClass(s), "spec": "DecodeSignedTRC yields a TRC whose payload is invalid: " + reason})
+			}
+			return
+		}
 		r.Violation("accepted:invalid-payload-decoded", map[string]any{"case": s.String()})
 		return
 	}
@@ -743,7 +795,7 @@ func c32Required(s *c32Succ) []c32Sig {
 	}
 	if regular {
 		for _, e := range s.edits {
-			if e.class == c32Rt && (e.kind == c32Repl || e.kind == c32ReplKey) {
+			if e.class == c32Rt && (e.kind == c32Repl || e.kind == c32ReplKey || e.kind == c32Twin || e.kind == c32TwinSwap) {
 				add(c32Ref{class: c32Rt, idx: e.idx, isd: 1})
 			}
 		}
@@ -795,6 +847,33 @@ func c32EditSets(thorough bool) [][]c32Edit {
 	for _, a := range atoms {
 		sets = append(sets, []c32Edit{a})
 	}
+	// two certificates of one class with the same subject distinguished name (each class in turn): a twin appended
+	// next to the original, the neighbour replaced by a twin (count unchanged), both holders of the subject new
+	// (original renewed + twin), twin appended while the neighbour is removed, and twins next to unrelated edits.
+	// Kept out of the generic pair product (the verdict is decided by the duplicate alone).
+	for _, cl := range []c32Class{c32S, c32R, c32Rt} {
+		n := 3
+		if cl == c32Rt {
+			n = 2
+		}
+		for i := 0; i < n; i++ {
+			if !thorough && i > 0 {
+				continue
+			}
+			sets = append(sets,
+				[]c32Edit{{c32Twin, cl, i}},
+				[]c32Edit{{c32TwinSwap, cl, i}},
+				[]c32Edit{{c32Repl, cl, i}, {c32TwinSwap, cl, i}},
+				[]c32Edit{{c32ReplKey, cl, i}, {c32Twin, cl, i}},
+				[]c32Edit{{c32Twin, cl, i}, {c32Del, cl, (i + 1) % n}},
+			)
+		}
+	}
+	sets = append(sets,
+		[]c32Edit{{c32Repl, c32R, 1}, {c32TwinSwap, c32Rt, 0}},
+		[]c32Edit{{c32TwinSwap, c32Rt, 1}, {c32Repl, c32R, 0}},
+		[]c32Edit{{c32Add, c32S, 0}, {c32TwinSwap, c32R, 1}},
+	)
 	pairOK := func(a, b c32Edit) bool {
 		return !(a.class == b.class && a.idx == b.idx && a.kind != c32Add && b.kind != c32Add)
 	}
@@ -1109,13 +1188,26 @@ func c32Base(cr *c32Runner) {
 			voters = append(voters, c32Ref{class: c32R, idx: i, isd: 1})
 		}
 		all := append(append([]c32Ref{}, voters...), c32Ref{class: c32Rt, idx: 0, isd: 1})
-		mk := func(valid bool) cppki.TRC {
+		mk := func(valid bool, extra ...c32Ref) cppki.TRC {
 			t := cppki.TRC{Version: 1, ID: cppki.TRCID{ISD: 1, Base: 1, Serial: 1}, Validity: c32PredVal, Quorum: n,
 				CoreASes: []addr.AS{0xff00_0000_0110}, AuthoritativeASes: []addr.AS{0xff00_0000_0110}, Description: "base"}
 			if !valid {
 				t.Quorum = n + 1
 			}
-			for _, c := range all {
+			certs := append([]c32Ref{}, all...)
+			for _, x := range extra {
+				if x.idx < 0 { // marker: drop the last certificate of that class before appending the rest
+					for i := len(certs) - 1; i >= 0; i-- {
+						if certs[i].class == x.class {
+							certs = append(certs[:i], certs[i+1:]...)
+							break
+						}
+					}
+					continue
+				}
+				certs = append(certs, x)
+			}
+			for _, c := range certs {
 				t.Certificates = append(t.Certificates, c32Cert(c).X)
 			}
 			return t
@@ -1126,6 +1218,7 @@ func c32Base(cr *c32Runner) {
 			valid  bool
 			pred   bool
 			accept bool
+			extra  []c32Ref
 		}
 		full := func() []c32Sig {
 			var s []c32Sig
@@ -1134,19 +1227,45 @@ func c32Base(cr *c32Runner) {
 			}
 			return s
 		}
-		vs := []variant{{"all-voters", full(), true, false, true}, {"all-voters-with-predecessor", full(), true, true, false},
-			{"all-voters-invalid-payload", full(), false, false, false}, {"no-signatures", nil, true, false, false}}
+		vs := []variant{{"all-voters", full(), true, false, true, nil}, {"all-voters-with-predecessor", full(), true, true, false, nil},
+			{"all-voters-invalid-payload", full(), false, false, false, nil}, {"no-signatures", nil, true, false, false, nil}}
+		// two certificates of one class with the same subject distinguished name (trc.rst: per category every
+		// distinguished name MUST be unique): a twin next to the first certificate of the class, appended or in place of
+		// the last certificate of the class; every voting certificate of the list (twin included) signs
+		for _, cl := range []c32Class{c32S, c32R, c32Rt} {
+			twin := c32Ref{class: cl, idx: 0, gen: 3, isd: 1}
+			for _, inPlace := range []bool{false, true} {
+				if inPlace && (cl == c32Rt || n < 2) {
+					continue
+				}
+				var sg []c32Sig
+				for _, v := range voters {
+					if inPlace && v.class == cl && v.idx == n-1 {
+						continue // the dropped certificate does not sign
+					}
+					sg = append(sg, c32Sig{v, c32SigGood})
+				}
+				if cl != c32Rt {
+					sg = append(sg, c32Sig{twin, c32SigGood})
+				}
+				ex := []c32Ref{twin}
+				if inPlace {
+					ex = []c32Ref{{class: cl, idx: -1}, twin}
+				}
+				vs = append(vs, variant{"duplicate-subject-" + cl.String(), sg, false, false, false, ex})
+			}
+		}
 		for i := range voters {
 			m := full()
-			vs = append(vs, variant{"missing-voter-signature", append(m[:i:i], m[i+1:]...), true, false, false})
+			vs = append(vs, variant{"missing-voter-signature", append(m[:i:i], m[i+1:]...), true, false, false, nil})
 			for _, mode := range []int{c32SigWrongKey, c32SigOtherPayload} {
 				w := full()
 				w[i].mode = mode
-				vs = append(vs, variant{"forged-voter-signature", w, true, false, false})
+				vs = append(vs, variant{"forged-voter-signature", w, true, false, false, nil})
 			}
 		}
 		for _, v := range vs {
-			t := mk(v.valid)
+			t := mk(v.valid || v.extra != nil, v.extra...)
 			raw, _ := pkigen.EncodePayload(t)
 			var infos []protocol.SignerInfo
 			for _, sg := range v.sigs {
